@@ -7,7 +7,7 @@ use flatty_base::{
     emplacer::Emplacer,
     error::{Error, ErrorKind},
     traits::{Flat, FlatBase, FlatDefault, FlatSized, FlatUnsized, FlatValidate},
-    utils::{floor_mul, mem::slice_ptr_len},
+    utils::{ceil_mul, floor_mul, mem::slice_ptr_len},
 };
 use stavec::GenericString;
 
@@ -46,7 +46,7 @@ unsafe impl<L: Flat + Length> FlatBase for FlatString<L> {
     const MIN_SIZE: usize = Self::DATA_OFFSET;
 
     fn size(&self) -> usize {
-        Self::DATA_OFFSET + self.len()
+        ceil_mul(Self::DATA_OFFSET + self.len(), Self::ALIGN)
     }
 }
 
